@@ -41,11 +41,11 @@ func (f *faultStorage) AddAll(ctx context.Context, recs []list.StorageRecord) er
 type observer struct {
 	name     string
 	keys     *accountdata.AccountKeys
-	validate bool                                    // full validation or network-acceptor verifier
+	validate bool // full validation or network-acceptor verifier
 	l        list.AclList
 	st       list.Storage
 	reopen   func() (list.Storage, error) // fresh Storage object over the same persisted data
-	batch    int                                     // >1: records are buffered and fed with AddRawRecords
+	batch    int                          // >1: records are buffered and fed with AddRawRecords
 	buf      []*consensusproto.RawRecordWithId
 	fault    *faultStorage
 }
@@ -164,21 +164,40 @@ func (x *c03) offerBad(o *observer, b *built, what string, mustReject bool) {
 	}
 }
 
-// flush feeds buffered records to a batching observer.
+// flush feeds buffered records to a batching observer. Sometimes a record with a wrong id is slipped
+// into the batch: AddRawRecords must stop there with an error, keep what came before it, and the
+// rest of the batch is delivered afterwards.
 func (x *c03) flush(o *observer) {
 	if len(o.buf) == 0 {
 		return
 	}
-	var err error
-	func() {
+	add := func(recs []*consensusproto.RawRecordWithId) (err error) {
 		defer func() {
 			if p := recover(); p != nil {
 				err = fmt.Errorf("panic: %v", p)
 			}
 		}()
-		err = o.l.AddRawRecords(o.buf)
-	}()
-	if err != nil {
+		return o.l.AddRawRecords(recs)
+	}
+	if x.s.r.Chance(25) {
+		k := x.s.r.Intn(len(o.buf))
+		bad := &consensusproto.RawRecordWithId{Payload: o.buf[k].Payload, Id: o.buf[k].Id + "x"}
+		batch := append(append(append([]*consensusproto.RawRecordWithId{}, o.buf[:k]...), bad), o.buf[k:]...)
+		wantHead := o.l.Head().Id
+		if k > 0 {
+			wantHead = o.buf[k-1].Id
+		}
+		err := add(batch)
+		x.s.r.Count("c03.batch-with-bad-record")
+		if err == nil {
+			x.violate("batch-error", fmt.Sprintf("%s: AddRawRecords reported success for a batch whose record #%d has an id that is not the hash of its bytes", o.name, k))
+		}
+		if got := o.l.Head().Id; got != wantHead {
+			x.violate("batch-error", fmt.Sprintf("%s: after a batch that fails at record #%d the head is record %d, expected record %d", o.name, k, x.w.ridx(got), x.w.ridx(wantHead)))
+		}
+		o.buf = o.buf[k:]
+	}
+	if err := add(o.buf); err != nil {
 		x.violate("accept-valid", fmt.Sprintf("%s (batch of %d) rejected records the validating list accepted: %v", o.name, len(o.buf), err))
 	}
 	o.buf = o.buf[:0]
